@@ -237,7 +237,7 @@ func TestC01(t *testing.T) {
 		},
 		Gen:            genC01,
 		Run:            runC01,
-		QuickChecks:    1200,
-		ThoroughFactor: 25,
+		QuickChecks:    2500,
+		ThoroughFactor: 12,
 	})
 }
